@@ -4,6 +4,7 @@ import (
 	"fmt"
 	"io"
 	"io/ioutil"
+	"regexp"
 	"strings"
 	"unicode"
 )
@@ -117,6 +118,9 @@ type lexer struct {
 	mode   mode
 	last   token // The last emitted token
 	parens int   // Number of open parenthesis
+
+	prev     tokenType // Type of the last emitted non-whitespace token
+	verbatim bool      // True while lexing the opening tag of a verbatim section
 }
 
 // nextToken returns the next token emitted by the lexer.
@@ -146,7 +150,7 @@ func (l *lexer) tokenize() {
 func newLexer(input io.Reader) *lexer {
 	// TODO: lexer should use the reader.
 	i, _ := ioutil.ReadAll(input)
-	return &lexer{0, 0, 1, 0, string(i), make(chan token), nil, modeNormal, token{}, 0}
+	return &lexer{0, 0, 1, 0, string(i), make(chan token), nil, modeNormal, token{}, 0, tokenEOF, false}
 }
 
 func (l *lexer) next() (val string) {
@@ -185,6 +189,13 @@ func (l *lexer) emit(t tokenType) {
 	}
 
 	tok := token{val, t, Pos{l.line, l.offset}}
+
+	if t == tokenName && l.prev == tokenTagOpen && val == "verbatim" {
+		l.verbatim = true
+	}
+	if t != tokenWhitespace {
+		l.prev = t
+	}
 
 	if c := strings.Count(val, "\n"); c > 0 {
 		l.line += c
@@ -542,6 +553,30 @@ func lexTagClose(l *lexer) stateFn {
 	}
 	l.pos += len(delimCloseTag)
 	l.emit(tokenTagClose)
+
+	if l.verbatim {
+		l.verbatim = false
+		return lexVerbatim
+	}
+
+	return lexData
+}
+
+// verbatimEnd matches the tag that ends a verbatim section.
+var verbatimEnd = regexp.MustCompile(`\{%-?\s*endverbatim\s*-?%\}`)
+
+// lexVerbatim emits the body of a verbatim section as a single text token,
+// without interpreting any delimiters it contains.
+func lexVerbatim(l *lexer) stateFn {
+	if loc := verbatimEnd.FindStringIndex(l.input[l.pos:]); loc != nil {
+		l.pos += loc[0]
+	} else {
+		// Unclosed: the parser reports the missing endverbatim tag.
+		l.pos = len(l.input)
+	}
+	if l.pos > l.start {
+		l.emit(tokenText)
+	}
 
 	return lexData
 }
